@@ -360,6 +360,13 @@ func (ebo ExpBackOff) RetryWithCtx(ctx context.Context, retries int, f Func) err
 		case <-delay.C:
 		}
 
+		// If the timer and ctx.Done() are both ready (e.g., a zero or very short wait),
+		// select picks one at random, so check the context again before calling f.
+		if ctxErr := ctx.Err(); ctxErr != nil {
+			re.MainErr = ctxErr
+			return re
+		}
+
 		// try the operation
 		cont, err = f(ctx)
 		if err == nil {
